@@ -4,58 +4,110 @@ import (
 	"encoding/json"
 	"fmt"
 	"os"
+	"strings"
+	"time"
 
 	"verifharness/internal/h"
 )
 
 func init() { h.Register("C11", driveC11) }
 
-func driveC11(c *h.Ctx) error {
-	if os.Getenv("CC_PROBE") != "" {
-		probes := []ccScenario{
-			{Steps: []ccStep{{}, {}}},
-			{Negotiate: true, Steps: []ccStep{{}, {}}},
-			// defect 16: cancel between send and recv, next call
-			{Steps: []ccStep{{Trig: ccTSent, Act: ccACancel}, {}}},
-			// reply held, cancel, next
-			{Steps: []ccStep{{Trig: ccTReplyHeld, Act: ccACancel}, {}}},
-			{Steps: []ccStep{{Trig: ccTWriteHeld, Act: ccACancel}, {}}},
-			{Steps: []ccStep{{Trig: ccTPre, Act: ccACancel}, {}}},
-			// defect 17a: close at loaded
-			{Steps: []ccStep{{Trig: ccTLoaded, Act: ccAClose}, {}}},
-			// defect 18: reset on read, then next calls
-			{Plans: []ccPlan{{Reqs: []ccReq{{R: 1, RK: 4}}}}, Steps: []ccStep{{}, {}, {}}},
-			// write reset
-			{Plans: []ccPlan{{Reqs: []ccReq{{W: 1, WK: 4}}}}, Steps: []ccStep{{}, {}, {}}},
-			// EOF on read -> retry
-			{Plans: []ccPlan{{Reqs: []ccReq{{R: 1, RK: 1}}}}, Steps: []ccStep{{}, {}}},
-			// EOF on every conn: retry bound
-			{Plans: []ccPlan{{Reqs: []ccReq{{R: 1, RK: 1}}}, {Reqs: []ccReq{{R: 1, RK: 1}}}, {Reqs: []ccReq{{R: 1, RK: 1}}}, {Reqs: []ccReq{{R: 1, RK: 1}}}, {Reqs: []ccReq{{R: 1, RK: 1}}}}, Steps: []ccStep{{}, {}}},
-			// defect 19: EOF then dial fails, then Close
-			{Plans: []ccPlan{{Reqs: []ccReq{{R: 1, RK: 1}}}, {DialFail: true}}, Steps: []ccStep{{}, {Close: true}, {}}},
-			// close then call
-			{Steps: []ccStep{{}, {Close: true}, {}}},
-			// close while reply held
-			{Steps: []ccStep{{Trig: ccTReplyHeld, Act: ccAClose}, {}}},
-			// then-fail
-			{Plans: []ccPlan{{Reqs: []ccReq{{R: 3, RK: 1}}}}, Steps: []ccStep{{}, {}}},
-			{Plans: []ccPlan{{Reqs: []ccReq{{R: 3, RK: 4}}}}, Steps: []ccStep{{}, {}}},
-			{Plans: []ccPlan{{Reqs: []ccReq{{R: 2, RK: 1, PN: 5}}}}, Steps: []ccStep{{}, {}}},
-			{Plans: []ccPlan{{Reqs: []ccReq{{W: 2, WK: 6, SN: 10}}}}, Steps: []ccStep{{}, {}}},
-			{Plans: []ccPlan{{Reqs: []ccReq{{J: true, Ch: 3}}}}, Steps: []ccStep{{}, {}}},
+// ccDrive runs the given scenarios on the real client, applies the direct oracle, and writes the
+// correspondence table (scenario, observed outcome) for the model.
+func ccDrive(c *h.Ctx, prop string, cases []ccGenCase, casesFile string, keep func(sig string) bool) error {
+	var rows []string
+	for i, gc := range cases {
+		sc := gc.Sc
+		t0 := time.Now()
+		obs := ccRun(sc, false)
+		if d := time.Since(t0); d > 300*time.Millisecond && os.Getenv("CC_SLOW") != "" {
+			fmt.Fprintf(os.Stderr, "slow %v: %s\n", d, ccDescribe(sc))
 		}
-		for i, sc := range probes {
-			n := 1
-			if len(sc.Steps) > 0 && sc.Steps[0].Trig == ccTLoaded {
-				n = 6
-			}
-			for k := 0; k < n; k++ {
-				obs := ccRun(sc, false)
-				b, _ := json.Marshal(obs)
-				fmt.Printf("%2d %-70s %s\n", i, ccDescribe(sc), b)
+		key := sc.key()
+		nontrivial := len(sc.Plans) > 0 || sc.Negotiate
+		for _, st := range sc.Steps {
+			if st.Close || st.Trig != 0 {
+				nontrivial = true
 			}
 		}
+		c.Eval(key, nontrivial)
+		c.Count("family:" + gc.Family)
+		for _, o := range obs.Steps {
+			c.Count("result:" + ccResNames[o.Res])
+			if o.Ntx > 1 {
+				c.Count(fmt.Sprintf("transmissions:%d", o.Ntx))
+			}
+		}
+		caseJSON := map[string]any{"scenario": sc, "family": gc.Family, "what": ccDescribe(sc), "observed": obs}
+		if i%211 == 0 {
+			c.Sample(caseJSON)
+		}
+		// ---- direct oracle
+		vs := ccOracle(sc, obs)
+		for _, o := range obs.Steps {
+			if o.ExpectOK && o.Res == ccRErr {
+				vs = append(vs, ccVerdict{"no-recovery", "a call failed although the client is open, the dialer succeeds and no failure is left in the script"})
+			}
+			if o.Millis > 1500 && o.Res != ccRHang {
+				vs = append(vs, ccVerdict{"slow", fmt.Sprintf("a call took %d ms to return", o.Millis)})
+			}
+		}
+		for _, v := range vs {
+			if keep == nil || keep(v.Sig) {
+				ev := ccRun(sc, true) // once more, keeping the transport's event log for the report
+				caseJSON["events"] = ev.Events
+				c.Fail(prop+"/"+v.Sig, v.Desc+" -- "+ccDescribe(sc), caseJSON)
+			}
+		}
+		// ---- row for the model
+		rows = append(rows, "("+ccCoqScenario(sc)+", "+ccCoqOutcome(obs)+")")
+		c.IndexCase("mism_scenarios", len(rows)-1, caseJSON)
 	}
-	c.Rule("probe")
-	return nil
+	var sb strings.Builder
+	sb.WriteString("From Coq Require Import ZArith List Bool.\nFrom KV Require Import ConnClient ConnScenario Cases.\nImport ListNotations.\nOpen Scope Z_scope.\n")
+	defs, expr := h.Chunk("rows", "scenario * outcome", rows, 200)
+	sb.WriteString(defs)
+	fmt.Fprintf(&sb, "Definition mism_scenarios := Eval vm_compute in bad_idx row_ok %s 0.\nPrint mism_scenarios.\n", expr)
+	return c.WriteCases(casesFile, sb.String(), len(rows))
+}
+
+func ccReplayCases(c *h.Ctx) ([]ccGenCase, bool, error) {
+	if c.Replay == nil {
+		return nil, false, nil
+	}
+	m, _ := c.Replay["case"].(map[string]any)
+	if m == nil || m["scenario"] == nil {
+		return nil, true, fmt.Errorf("replay file holds no scenario (kind=%v): re-run the check itself", c.Replay["kind"])
+	}
+	sc, err := ccScenarioFromJSON(m["scenario"])
+	if err != nil {
+		return nil, true, err
+	}
+	var out []ccGenCase
+	for i := 0; i < 8; i++ { // racy windows: several runs
+		out = append(out, ccGenCase{"replay", sc})
+	}
+	return out, true, nil
+}
+
+func driveC11(c *h.Ctx) error {
+	c.Rule("scenarios imposed on a real kmipclient.Client over the scripted in-memory transport (WithDialerUnsafe): " +
+		"(1) one failure at every I/O point of every exchange incl. negotiation (write: EOF/closed pipe/net closed/reset/broken pipe/timeout/short write at 4 offsets; " +
+		"read: the same kinds instead of the reply, after 1/7/8/9/40/all-but-one bytes of it, right after it; zero-byte reads; chunked and junk-prefixed replies) x what the caller does next " +
+		"(call, call call, Close, Close call, call Close call); (2) failure chains over successive connections incl. failing dials, exhaustive to length 3, random to length 6; " +
+		"(3) every cancellation / concurrent Close instant (before the call, send.loaded hook, Write parked in the transport, roundtrip.sent hook, reply held back, inside the dialer) " +
+		"alone and combined with failures; (4) random compositions. Non-trivial: at least one failure, trigger, Close or negotiation; distinct by scenario text")
+	cases, replay, err := ccReplayCases(c)
+	if err != nil {
+		return err
+	}
+	if !replay {
+		cases = append(cases, ccGenSingle()...)
+		cases = append(cases, ccGenChains(c.Rng.Fork(11), c.Pick(150, 3000))...)
+		cases = append(cases, ccGenTriggers()...)
+		cases = append(cases, ccGenRandom(c.Rng.Fork(12), c.Pick(400, 20000))...)
+	}
+	b, _ := json.Marshal(len(cases))
+	c.Extra("scenarios", json.RawMessage(b))
+	return ccDrive(c, "C11", cases, "cases_C11.v", nil)
 }
